@@ -315,7 +315,7 @@ def is_valid_mac(address):
 
     .. versionadded:: 3.17
     """
-    m = "[0-9a-f]{2}(:[0-9a-f]{2}){5}$"
+    m = r"[0-9a-f]{2}(:[0-9a-f]{2}){5}\Z"
     return isinstance(address, str) and re.match(m, address.lower())
 
 
